@@ -51,6 +51,20 @@ def sym_float(v=0.0):
     return v if isinstance(v, SymReal) else builtins.float(v)
 
 
+class _StrMeta(type):
+    def __instancecheck__(cls, obj):
+        return builtins.isinstance(obj, builtins.str) or type(obj).__name__ in ('SymStr',)
+
+
+class sym_str(metaclass=_StrMeta):
+    """`str` for a module namespace: str(x) of a symbolic string is that string; as a TYPE (schemas) it accepts str and SymStr"""
+
+    def __new__(cls, x=''):
+        if type(x).__name__ in ('SymStr', 'SymChar'):
+            return x
+        return builtins.str(x)
+
+
 def sym_int(v=0, *a):
     if isinstance(v, SymInt):
         return v
@@ -85,7 +99,11 @@ def sym_Decimal(v=0):
 
 
 def sym_isinstance(obj, cls):
-    """isinstance that lets SymReal pass as float and SymInt as int (the types a real caller would supply)"""
+    """isinstance that lets SymReal pass as float, SymInt as int and SymStr as str (the types a real caller would supply)"""
+    if type(obj).__name__ == 'SymStr' and type(obj).__module__.endswith('symx.text'):
+        cs = cls if isinstance(cls, tuple) else (cls,)
+        if str in cs:
+            return True
     if isinstance(obj, SymReal):
         cs = cls if isinstance(cls, tuple) else (cls,)
         if isinstance(obj, SymInt):
